@@ -15,6 +15,87 @@ call the user's wrapper receives from the generated body when `w` is called with
 -/
 namespace C13
 
+/-! ## argument binding -/
+
+/-- exactly which calls a signature accepts (everything else is a TypeError): no surplus
+    positional values unless `*args`, no unknown keyword unless `**kw`, no keyword for a
+    parameter already filled positionally, and every remaining parameter has a keyword or a
+    default -/
+theorem accepts_spec (s : Sig) (c : Call) :
+    (bind s c).isSome ↔
+      (s.varargs.isSome ∨ c.pos.length ≤ s.pos.length) ∧
+      (s.varkw.isSome ∨ ∀ kv ∈ c.kws, kv.1 ∈ s.names) ∧
+      (∀ p ∈ s.pos.take c.pos.length, get? p.1 c.kws = none) ∧
+      (∀ p ∈ s.pos.drop c.pos.length, p.2.isSome ∨ (get? p.1 c.kws).isSome) ∧
+      (∀ p ∈ s.kwonly, p.2.isSome ∨ (get? p.1 c.kws).isSome) := by
+  have hA := fillPos_isSome_iff s.pos c.pos c.kws
+  have hB := fillPos_isSome_iff s.kwonly [] c.kws
+  simp only [List.length_nil, List.take_zero, List.drop_zero, List.not_mem_nil,
+    false_imp_iff, implies_true, true_and] at hB
+  have hdrop : (c.pos.drop s.pos.length).isEmpty = true ↔ c.pos.length ≤ s.pos.length := by
+    rw [List.isEmpty_iff, List.drop_eq_nil_iff]
+  have hunk : (c.kws.filter (unknownKw s)).isEmpty = true ↔ ∀ kv ∈ c.kws, kv.1 ∈ s.names := by
+    rw [List.isEmpty_iff, List.filter_eq_nil_iff]
+    constructor
+    · intro h kv hkv
+      have := h kv hkv
+      simpa [unknownKw] using this
+    · intro h kv hkv
+      simpa [unknownKw] using h kv hkv
+  unfold bind
+  by_cases h1 : (s.varargs.isNone && !(c.pos.drop s.pos.length).isEmpty) = true
+  · rw [if_pos h1]
+    simp only [Bool.and_eq_true, Bool.not_eq_true', Option.isNone_iff_eq_none] at h1
+    have : ¬ (s.varargs.isSome ∨ c.pos.length ≤ s.pos.length) := by
+      intro h
+      rcases h with h | h
+      · simp [h1.1] at h
+      · have := hdrop.mpr h; simp [h1.2] at this
+    simp [this]
+  · rw [if_neg h1]
+    have h1' : s.varargs.isSome ∨ c.pos.length ≤ s.pos.length := by
+      cases hv : s.varargs with
+      | some v => simp
+      | none =>
+        right; apply hdrop.mp
+        simpa [hv] using h1
+    by_cases h2 : (s.varkw.isNone && !(c.kws.filter (unknownKw s)).isEmpty) = true
+    · rw [if_pos h2]
+      simp only [Bool.and_eq_true, Bool.not_eq_true', Option.isNone_iff_eq_none] at h2
+      have : ¬ (s.varkw.isSome ∨ ∀ kv ∈ c.kws, kv.1 ∈ s.names) := by
+        intro h
+        rcases h with h | h
+        · simp [h2.1] at h
+        · have := hunk.mpr h; simp [h2.2] at this
+      simp only [Option.isSome_none, Bool.false_eq_true, false_iff]
+      intro h; exact this h.2.1
+    · rw [if_neg h2]
+      have h2' : s.varkw.isSome ∨ ∀ kv ∈ c.kws, kv.1 ∈ s.names := by
+        cases hv : s.varkw with
+        | some v => simp
+        | none =>
+          right; apply hunk.mp
+          simpa [hv] using h2
+      cases ha : fillPos s.pos c.pos c.kws with
+      | none =>
+        have : ¬ ((∀ p ∈ s.pos.take c.pos.length, get? p.1 c.kws = none) ∧
+            (∀ p ∈ s.pos.drop c.pos.length, p.2.isSome ∨ (get? p.1 c.kws).isSome)) := by
+          rw [← hA, ha]; simp
+        simp only [Option.isSome_none, Bool.false_eq_true, false_iff]
+        intro h; exact this ⟨h.2.2.1, h.2.2.2.1⟩
+      | some a =>
+        have hA' := hA.mp (by rw [ha]; rfl)
+        cases hk : fillPos s.kwonly [] c.kws with
+        | none =>
+          have : ¬ (∀ p ∈ s.kwonly, p.2.isSome ∨ (get? p.1 c.kws).isSome) := by
+            rw [← hB, hk]; simp
+          simp only [Option.isSome_none, Bool.false_eq_true, false_iff]
+          intro h; exact this h.2.2.2.2
+        | some k =>
+          have hB' := hB.mp (by rw [hk]; rfl)
+          simp only [Option.isSome_some, true_iff]
+          exact ⟨h1', h2', hA'.1, hA'.2, hB'⟩
+
 /-! ## plain `wraps(f)` -/
 
 /-- `wraps(f)` (any options) builds a function with the same own signature, the same
@@ -323,6 +404,7 @@ example : WfFunc exF := ⟨by decide, by decide, by decide, by decide⟩
 example : (bind (sigOf exF) ⟨[101, 102, 103, 104], [(4, 110), (8, 111)]⟩) =
     some ⟨[(1, 101), (2, 102), (3, 103)], some [104], [(4, 110), (5, 25)], some [(8, 111)]⟩ := by decide
 example : (bind (sigOf exF) ⟨[101], [(2, 5)]⟩) = none := by decide   -- p4 missing
+example : ¬ ∀ p ∈ (sigOf exF).kwonly, p.2.isSome ∨ (get? p.1 [(2, 5)]).isSome := by decide
 example : (bind (sigOf exF) ⟨[101, 102], [(2, 5), (4, 1)]⟩) = none := by decide   -- p2 twice
 example : (wraps exF).toOption.map (fun w => callWrapper w ⟨[101], [(4, 110), (8, 111)]⟩) =
     some (some ⟨[101, 12, 13], [(4, 110), (5, 25), (8, 111)]⟩) := by decide
